@@ -198,6 +198,7 @@ theorem C17_helper_items_private (idx : Nat) (p0 : T) (idents : List (BKey × St
 /-- the helper trait of inherent mode is public, is named `_<Self><idx>` after the first block's self type (`selfTraitIdent`:
     the identifier of the LAST segment of the self type's path, see `C17_helper_trait_named_by_last_segment`), keeps the
     first block's safety qualifier, and has one item per item of the first block: the declaration of that item (same
+    ATTRIBUTES — `gen_inherent_impl_items` copies them onto the prototype since /repo 2b7edb4 —, same
     name, same type / signature / generics, no value) for every const / type / fn item of the shape `syn` produces -/
 theorem C17_helper_trait_items (item : T) (idx nkeys : Nat) (tr : T)
     (h : helperTraitOfInherent item idx nkeys = .ok tr) :
@@ -473,6 +474,18 @@ example : lastSegOf (.node "Path" [] [someLead, .node "List" [] [Ex11.seg "krate
     genAll ([ExInh.fnItem ExInh.pubVis "kita"].map traitItemOfImplItem) =
       .ok [.node "TraitItem::Fn" [] [ignAttrs, XOK.kid (ExInh.fnItem ExInh.pubVis "kita") 3, tNone, .node "Some" ["Semi"] []]] :=
   ⟨rfl, rfl⟩
+
+/-- attributes are copied onto the prototypes (/repo 2b7edb4): `#[cfg(any())] pub fn kita(&self) {}` (ONE attribute, i.e. an
+    attribute list of arity 1) is declared in the helper trait with the same attribute node, not with an empty list -/
+example :
+    let it := T.node "ImplItem::Fn" [] ((T.node "Ign" [] [.node "List" [] [Ex11.leaf "Attribute"]]) ::
+      (XOK.kids (ExInh.fnItem ExInh.pubVis "kita")).tail)
+    traitItemOfImplItem it =
+      .ok (.node "TraitItem::Fn" [] [.node "Ign" [] [.node "List" [] [Ex11.leaf "Attribute"]], XOK.kid it 3, tNone,
+        .node "Some" ["Semi"] []]) ∧
+    (∀ tit, traitItemOfImplItem it = .ok tit → XOK.kid tit 0 ≠ ignAttrs) ∧
+    itemShaped_inh it = true :=
+  ⟨rfl, by intro tit h; cases h; decide, by decide⟩
 
 end QualifiedSelfExamples
 
